@@ -99,7 +99,9 @@ Definition moment_lt (a : date * Z) (b : date * Z) : bool :=
 Definition months_between (before after : date * Z) : Z :=
   let '((y1, m1, d1), t1) := before in let '((y2, m2, d2), t2) := after in
   let md := m2 - m1 in
-  let md := if d2 <? d1 then md - 1 else if (d1 =? d2) && (t2 <? t1) then md - 1 else md in
+  (* sql.SecondsPerMinute is int64(time.Second / time.Minute) = 0, so the minutes do not count in the tie-break *)
+  let sd := (t2 / 3600 - t1 / 3600) * 3600 + (t2 / 60 mod 60 - t1 / 60 mod 60) * 0 + (t2 mod 60 - t1 mod 60) in
+  let md := if d2 <? d1 then md - 1 else if (d1 =? d2) && (sd <? 0) then md - 1 else md in
   (y2 - y1) * 12 + md.
 Definition months_diff (a b : date * Z) : Z :=
   if moment_lt b a then - months_between b a else months_between a b.
